@@ -3,6 +3,7 @@
 -/
 import CorgiProofs.EngineTop
 import CorgiProofs.PathSum
+import CorgiProofs.Reachable
 
 set_option linter.unusedSectionVars false
 
@@ -107,9 +108,28 @@ theorem C10_additive [AddLaws S] {G : Graph S} (sem : Sem G) (wf : G.WF) (lawful
       have : gradVal ℓ j { σ with log := [] } = gradVal ℓ j σ := rfl
       rw [this, AddLaws.add_assoc]
 
+
+/-- **No residue, in every reachable state.**  After *any* history of commands from the empty
+    program — any mixture of operations, passes on the same result again, on results sharing
+    sub-graphs, on interior nodes, seeds of every shape, optimizer updates, layer and model commands,
+    commands that panicked — every counter is zero and no delta is pending.  No hypothesis about the
+    graph: well-foundedness and lawfulness of the recorded closures are themselves invariants of the
+    command language (`reachable_good`). -/
+theorem C10_clean_reachable (cs : List (Cmd S)) :
+    (∀ i, (run cs ({} : State S)).cnt.getD i 0 = 0) ∧ (∀ i, (run cs ({} : State S)).delta.getD i none = none) :=
+  (reachable_good cs).heap.clean
+
+/-- and the pass itself, started in any reachable state on any bound array with any seed, ends clean -/
+theorem C10_pass_clean_reachable {σ σ' : State S} (hr : Reachable σ) (v : String) (h : Handle)
+    (seed : Option (Tensor S)) (hg : σ.get v = .ok h) (hok : σ.backward h seed = .ok σ') :
+    (∀ i, σ'.cnt.getD i 0 = 0) ∧ (∀ i, σ'.delta.getD i none = none) :=
+  (good_backward hr.good (get_valid hr.good.roots hg) seed hok).heap.clean
+
 end Corgi
 
 #print axioms Corgi.C10_additive
 #print axioms Corgi.C10_clean
 #print axioms Corgi.C10_clean_history
 #print axioms Corgi.C10_store_adds
+#print axioms Corgi.C10_clean_reachable
+#print axioms Corgi.C10_pass_clean_reachable
